@@ -106,6 +106,8 @@ impl Allocator {
             return Err(self.del_err(e));
         }
 
+        #[cfg(specs_verif)]
+        crate::verif::yield_point(crate::verif::KILL_ATOMIC_BEFORE_ADD);
         self.killed.add_atomic(e.id());
 
         Ok(())
@@ -156,7 +158,11 @@ impl Allocator {
             atomic_increment(&self.max_id).expect("No entity left to allocate") as Index
         });
 
+        #[cfg(specs_verif)]
+        crate::verif::yield_point(crate::verif::ALLOCATE_BEFORE_RAISE);
         self.raised.add_atomic(id);
+        #[cfg(specs_verif)]
+        crate::verif::yield_point(crate::verif::ALLOCATE_BEFORE_GENERATION);
         let gen = self
             .generation(id)
             .map(|gen| if gen.is_alive() { gen } else { gen.raised() })
@@ -569,8 +575,12 @@ impl Extend<Index> for EntityCache {
 /// checked overflow, returning `None` instead.
 fn atomic_increment(i: &AtomicUsize) -> Option<usize> {
     use std::usize;
+    #[cfg(specs_verif)]
+    crate::verif::yield_point(crate::verif::INCREMENT_BEFORE_LOAD);
     let mut prev = i.load(Ordering::Relaxed);
     while prev != usize::MAX {
+        #[cfg(specs_verif)]
+        crate::verif::yield_point(crate::verif::INCREMENT_BEFORE_CAS);
         match i.compare_exchange_weak(prev, prev + 1, Ordering::Relaxed, Ordering::Relaxed) {
             Ok(x) => return Some(x),
             Err(next_prev) => prev = next_prev,
@@ -583,8 +593,12 @@ fn atomic_increment(i: &AtomicUsize) -> Option<usize> {
 /// Resembles a `fetch_sub(1, Ordering::Relaxed)` with
 /// checked underflow, returning `None` instead.
 fn atomic_decrement(i: &AtomicUsize) -> Option<usize> {
+    #[cfg(specs_verif)]
+    crate::verif::yield_point(crate::verif::DECREMENT_BEFORE_LOAD);
     let mut prev = i.load(Ordering::Relaxed);
     while prev != 0 {
+        #[cfg(specs_verif)]
+        crate::verif::yield_point(crate::verif::DECREMENT_BEFORE_CAS);
         match i.compare_exchange_weak(prev, prev - 1, Ordering::Relaxed, Ordering::Relaxed) {
             Ok(x) => return Some(x),
             Err(next_prev) => prev = next_prev,
